@@ -152,6 +152,9 @@ class SuccessionDiagram:
     def __getstate__(self) -> SuccessionDiagramState:
         return {
             "network_rules": self.network.to_aeon(),
+            # The `.aeon` format sorts variables alphabetically, but the node keys,
+            # node IDs and symbolic sets all depend on the variable order.
+            "network_variables": self.network.variable_names(),
             "petri_net": self.petri_net,
             "nfvs": self.nfvs,
             "dag": self.dag,
@@ -161,7 +164,28 @@ class SuccessionDiagram:
 
     def __setstate__(self, state: SuccessionDiagramState):
         # In theory, the network should be cleaned-up at this point, but just in case...
-        self.network = cleanup_network(BooleanNetwork.from_aeon(state["network_rules"]))
+        network = BooleanNetwork.from_aeon(state["network_rules"])
+        variables = state.get("network_variables")
+        if variables is not None and network.variable_names() != variables:
+            # Restore the original variable order (see `__getstate__`).
+            ordered = BooleanNetwork(variables)
+            for reg in network.regulations():
+                ordered.add_regulation(
+                    {
+                        "source": network.get_variable_name(reg["source"]),
+                        "target": network.get_variable_name(reg["target"]),
+                        "sign": reg["sign"],
+                        "essential": reg["essential"],
+                    }
+                )
+            for var in network.variables():
+                update = network.get_update_function(var)
+                if update is not None:
+                    ordered.set_update_function(
+                        network.get_variable_name(var), str(update.as_expression())
+                    )
+            network = ordered
+        self.network = cleanup_network(network)
         self.symbolic = AsynchronousGraph(self.network)
         self.petri_net = state["petri_net"]
         self.nfvs = state["nfvs"]
